@@ -11,11 +11,21 @@ CLAIMED = {
         "text": "Seeded search over thread schedules (uniform/sticky/PCT) x operation programs x environment flips x identifier reuse, each read compared with a reference model of scoped thread-local overrides; sampling, not proof - a clean batch is evidence that no shallow ordering or leftover-state bug exists at line granularity.",
         "note": "Pre-emption only between source lines of sqllineage/config.py (bytecode-level races inside one line and inside dict operations are assumed atomic, as under the GIL); override values stay in the documented domain; trusted: the reference model in sim/props/c15.py, the scheduler in sim/sched.py.",
     },
+    "C12": {
+        "design_ref": "DESIGN.md 4.2",
+        "technique": "deterministic simulation with fault injection: baton-scheduled caller threads analysing script sequences with reused providers; faults = bad statement at position k, provider failure on the j-th lookup, exception out of a tap between statements; oracle = isolated reference in a fresh fork + provider hygiene probe; seeded search + full fault sweep over a fixed workload",
+        "text": "Seeded search over run histories x thread schedules x fault points, plus a complete sweep of every failure point (statement position, lookup index, statement boundary) over a fixed 8-script workload; every unfaulted analysis must equal the same analysis alone in a fresh process and every provider must answer like a fresh one whenever it is quiescent. Sampling of histories and schedules; the fault-point sweep is complete only for the fixed workload.",
+        "note": "Dependencies (sqlfluff/sqlparse/networkx) are atomic w.r.t. pre-emption; crash points are collaborator call-outs and taps, not arbitrary bytecodes; a wrong-but-stable answer is invisible (reference = same code alone); trusted: sim/props/c12.py, sim/sched.py, the guarded taps in /repo.",
+    },
+    "C11": {
+        "design_ref": "DESIGN.md 4.3",
+        "technique": "deterministic simulation over the hash-seed / process / call-order seams: every input observed in fresh forks of zygotes started with different PYTHONHASHSEED under seeded accessor-call permutations with repetitions; cross-world comparison of canonical dumps",
+        "text": "Every corpus, TPC-DS and generated input is analysed in 4 (quick) / 32 (thorough) interpreters with different string-hash seeds, twice each in fresh forks with different accessor programs; all canonical answers must agree. Sampling over inputs and seeds: a seed-dependent choice that needs a rarer hash collision pattern than the sampled seeds produce is missed.",
+        "note": "Canonical dump treats the cytoscape export as an unordered collection of elements (positional edge ids dropped) and rewrites subquery_<int>; exceptions compared by type; trusted: sim/canon.py, sim/props/c11.py.",
+    },
 }
 
 PLANNED = {
-    "C12": "claimed in DESIGN.md 4.2; check not built yet in this commit (in progress)",
-    "C11": "claimed in DESIGN.md 4.3; check not built yet in this commit (in progress)",
     "C03": "claimed in DESIGN.md 4.4; check not built yet in this commit (in progress)",
     "C04": "claimed in DESIGN.md 4.5; check not built yet in this commit (in progress)",
     "C14": "claimed in DESIGN.md 4.6; check not built yet in this commit (in progress)",
